@@ -706,7 +706,8 @@ func selftest(args []string) int {
 				gmp := []string{"1", "4", "16"}[p%3]
 				cmd := exec.Command(worker, "-test.run", "^TestWorker$")
 				cmd.Env = append(os.Environ(), "GOMAXPROCS="+gmp, "VERIF_PROP="+id, "VERIF_SEED=777", "VERIF_WORKER=0",
-					"VERIF_BUDGET_MS=600000", "VERIF_MAXRUNS="+strconv.Itoa(*runs), "VERIF_OUT="+out, "VERIF_REPLAY_DIR="+scratch)
+					"VERIF_BUDGET_MS=600000", "VERIF_MAXRUNS="+strconv.Itoa(*runs), "VERIF_OUT="+out, "VERIF_REPLAY_DIR="+scratch,
+					"VERIF_KNOWN="+envOr("VERIF_KNOWN_FILE", filepath.Join(verifDir, "known_findings.json")))
 				cmd.Run()
 				b, _ := os.ReadFile(out)
 				var r WorkerResult
